@@ -447,7 +447,207 @@ func (w *c14Walk) nativeLookups(td *thrift.TypeDescriptor, s *gen.TStruct, path 
 	}
 }
 
+// c14Base: thrift-base fields (Options.EnableThriftBase).  A field of type base.Base / base.BaseResp on the top
+// layer of a function's root struct is flagged as request / response base and its bit in the requires bitmap is
+// cleared (the base travels in the conversion context); everything else about it - id, name, type and the
+// DECLARED requiredness - stays, and the same type one level down is an ordinary field.
+func c14Base(c *h.Ctx) {
+	c.Run("thrift-base", c.N(1200, 40000), func(cs *h.Case) {
+		reqWord := []string{"", "required ", "optional "} // gen.ReqDefault, ReqRequired, ReqOptional
+		reqOf := func(i int) int { return []int{gen.ReqDefault, gen.ReqRequired, gen.ReqOptional}[i] }
+		type fld struct {
+			id           int
+			name, typ    string
+			req          int
+			reqBase      bool // expected to be flagged when EnableThriftBase
+			respBase     bool
+			structFields int
+		}
+		type st struct {
+			name   string
+			fields []fld
+		}
+		usedIDs := func() func() int {
+			used := map[int]bool{}
+			return func() int {
+				for {
+					id := 1 + cs.R.Intn(40)
+					if cs.R.Chance(25) {
+						id = []int{63, 64, 65, 127, 128, 255, 256, 1000, 32767}[cs.R.Intn(9)]
+					}
+					if !used[id] {
+						used[id] = true
+						return id
+					}
+				}
+			}
+		}
+		plain := []string{"i32", "string", "i64", "bool", "list<string>", "map<string,i64>"}
+		mk := func(name string, baseType string, withBase bool, nestedBase bool) st {
+			next := usedIDs()
+			out := st{name: name}
+			n := cs.R.Intn(4)
+			pos := cs.R.Intn(n + 1)
+			for i := 0; i <= n; i++ {
+				if i == pos && withBase {
+					f := fld{id: next(), name: []string{"Base", "BaseResp", "b", "base_field"}[cs.R.Intn(4)], typ: "base." + baseType, req: reqOf(cs.R.Intn(3)), structFields: 6}
+					if baseType == "BaseResp" {
+						f.respBase, f.structFields = true, 3
+					} else {
+						f.reqBase = true
+					}
+					out.fields = append(out.fields, f)
+				}
+				if i < n {
+					out.fields = append(out.fields, fld{id: next(), name: fmt.Sprintf("f%d", i), typ: plain[cs.R.Intn(len(plain))], req: reqOf(cs.R.Intn(3))})
+				}
+			}
+			if nestedBase {
+				out.fields = append(out.fields, fld{id: next(), name: "inner", typ: "Inner", req: reqOf(cs.R.Intn(3)), structFields: 2})
+			}
+			return out
+		}
+		inner := st{name: "Inner", fields: []fld{{id: 1 + cs.R.Intn(300), name: "nb", typ: "base.Base", req: reqOf(cs.R.Intn(3)), structFields: 6}, {id: 400, name: "nr", typ: "base.BaseResp", req: reqOf(cs.R.Intn(3)), structFields: 3}}}
+		nf := 1 + cs.R.Intn(3)
+		var structs []st
+		type fn struct{ name, req, resp string }
+		var fns []fn
+		for k := 0; k < nf; k++ {
+			rq := mk(fmt.Sprintf("Req%d", k), "Base", cs.R.Chance(80), cs.R.Chance(40))
+			rs := mk(fmt.Sprintf("Resp%d", k), "BaseResp", cs.R.Chance(80), cs.R.Chance(40))
+			structs = append(structs, rq, rs)
+			fns = append(fns, fn{fmt.Sprintf("M%d", k), rq.name, rs.name})
+		}
+		var sb strings.Builder
+		sb.WriteString("include \"base.thrift\"\nnamespace go verif\n\n")
+		render := func(x st) {
+			fmt.Fprintf(&sb, "struct %s {\n", x.name)
+			for _, f := range x.fields {
+				fmt.Fprintf(&sb, "  %d: %s%s %s,\n", f.id, reqWord[map[int]int{gen.ReqDefault: 0, gen.ReqRequired: 1, gen.ReqOptional: 2}[f.req]], f.typ, f.name)
+			}
+			sb.WriteString("}\n\n")
+		}
+		render(inner)
+		for _, x := range structs {
+			render(x)
+		}
+		sb.WriteString("service Svc {\n")
+		for _, f := range fns {
+			fmt.Fprintf(&sb, "  %s %s(1: %s req),\n", f.resp, f.name, f.req)
+		}
+		sb.WriteString("}\n")
+		idl := sb.String()
+		cs.Info("idl", idl)
+		ob := cs.R.Intn(8)
+		o := thrift.Options{EnableThriftBase: ob&1 != 0, SetOptionalBitmap: ob&2 != 0, UseDefaultValue: ob&4 != 0}
+		cs.Info("opts", fmt.Sprintf("EnableThriftBase=%v SetOptionalBitmap=%v UseDefaultValue=%v", o.EnableThriftBase, o.SetOptionalBitmap, o.UseDefaultValue))
+		svc, err := o.NewDescritorFromContent(context.Background(), "main.thrift", idl, map[string]string{"main.thrift": idl, "base.thrift": gen.TBaseIDL}, false)
+		if err != nil {
+			cs.Viol("tdesc:parse-error-on-valid-idl", "err", err)
+			return
+		}
+		byName := map[string]st{"Inner": inner}
+		for _, x := range structs {
+			byName[x.name] = x
+		}
+		var check func(d *thrift.StructDescriptor, x st, top bool, path string)
+		check = func(d *thrift.StructDescriptor, x st, top bool, path string) {
+			if d == nil {
+				cs.Viol("tdesc:base:struct-missing", "path", path)
+				return
+			}
+			if d.Len() != len(x.fields) {
+				cs.Viol("tdesc:field-count", "path", path, "got", d.Len(), "want", len(x.fields))
+			}
+			var wantReqBase, wantRespBase *thrift.FieldDescriptor
+			bm := d.Requires()
+			for _, f := range x.fields {
+				p := path + "." + f.name
+				fd := d.FieldById(thrift.FieldID(f.id))
+				if fd == nil || fd.Name() != f.name || d.FieldByKey(f.name) != fd {
+					cs.Viol("tdesc:field-missing-by-id", "path", p, "id", f.id)
+					continue
+				}
+				isReq := o.EnableThriftBase && top && f.reqBase
+				isResp := o.EnableThriftBase && top && f.respBase
+				if fd.IsRequestBase() != isReq || fd.IsResponseBase() != isResp {
+					cs.Viol("tdesc:base:flag", "path", p, "got", fmt.Sprintf("req=%v resp=%v", fd.IsRequestBase(), fd.IsResponseBase()), "want", fmt.Sprintf("req=%v resp=%v", isReq, isResp))
+				}
+				if isReq {
+					wantReqBase = fd
+				}
+				if isResp {
+					wantRespBase = fd
+				}
+				if fd.Required() != wantReq(f.req) {
+					cs.Viol("tdesc:requiredness", "path", p, "got", int(fd.Required()), "want", int(wantReq(f.req)), "base-field", isReq || isResp)
+				}
+				wantBit := (f.req != gen.ReqOptional || o.SetOptionalBitmap) && !isReq && !isResp
+				if f.id/64 >= len(bm) {
+					if wantBit {
+						cs.Viol("tdesc:requires-bitmap-short", "path", p, "words", len(bm))
+					}
+				} else if bm.IsSet(thrift.FieldID(f.id)) != wantBit {
+					cs.Viol("tdesc:requires-bitmap", "path", p, "got", bm.IsSet(thrift.FieldID(f.id)), "want", wantBit, "base-field", isReq || isResp)
+				}
+				if f.structFields > 0 {
+					if fd.Type().Type() != thrift.STRUCT || fd.Type().Struct() == nil || fd.Type().Struct().Len() != f.structFields {
+						cs.Viol("tdesc:base:type", "path", p, "type", fd.Type().Type().String())
+					} else if f.typ == "Inner" {
+						check(fd.Type().Struct(), inner, false, p)
+					}
+				}
+				cs.CoverN("base_fields_checked", 1)
+				if isReq || isResp {
+					cs.Cover(fmt.Sprintf("base_field_declared_req%d", f.req))
+				}
+			}
+			if d.GetRequestBase() != wantReqBase {
+				cs.Viol("tdesc:base:GetRequestBase", "path", path, "got-nil", d.GetRequestBase() == nil, "want-nil", wantReqBase == nil)
+			}
+			if d.GetResponseBase() != wantRespBase {
+				cs.Viol("tdesc:base:GetResponseBase", "path", path, "got-nil", d.GetResponseBase() == nil, "want-nil", wantRespBase == nil)
+			}
+		}
+		for _, f := range fns {
+			fd := svc.Functions()[f.name]
+			if fd == nil {
+				cs.Viol("tdesc:function-set", "missing", f.name)
+				continue
+			}
+			rq := fd.Request().Struct().FieldById(1)
+			if rq == nil || rq.Type().Type() != thrift.STRUCT {
+				cs.Viol("tdesc:base:request-wrapper", "fn", f.name)
+				continue
+			}
+			check(rq.Type().Struct(), byName[f.req], true, f.name+".req")
+			wantHas := false
+			for _, x := range byName[f.req].fields {
+				wantHas = wantHas || (x.reqBase && o.EnableThriftBase)
+			}
+			if fd.HasRequestBase() != wantHas {
+				cs.Viol("tdesc:base:HasRequestBase", "fn", f.name, "got", fd.HasRequestBase(), "want", wantHas)
+			}
+			rs := fd.Response().Struct().FieldById(0)
+			if rs == nil || rs.Type().Type() != thrift.STRUCT {
+				cs.Viol("tdesc:base:response-wrapper", "fn", f.name)
+				continue
+			}
+			check(rs.Type().Struct(), byName[f.resp], true, f.name+".resp")
+		}
+		cs.Cover("base_programs_ok")
+		if o.EnableThriftBase {
+			cs.Cover("base_enabled")
+			if o.SetOptionalBitmap {
+				cs.Cover("base_enabled_with_optional_bitmap")
+			}
+		}
+		cs.Distinct(fmt.Sprintf("base-%d-%d-%d", ob, nf, len(structs[0].fields)))
+	})
+}
+
 func runC14(c *h.Ctx) {
+	defer c14Base(c)
 	c.Run("programs", c.N(3000, 100000), func(cs *h.Case) {
 		cfg := gen.TCfg{Includes: cs.R.Intn(3), SameNames: cs.R.Chance(70), HashKeys: cs.R.Chance(30), NonASCII: cs.R.Chance(40), MaxFields: 1 + cs.R.Intn(8)}
 		prog := gen.GenTProgram(cs.R, cfg)
